@@ -305,7 +305,7 @@ func c13(c *Ctx) {
 		for i, act := range actions {
 			dom := false
 			for _, lk := range wLookups {
-				if lk.Block().Dominates(act.Block()) {
+				if cfgx.MustPass(lk.Block(), act.Block()) {
 					dom = true
 				}
 			}
@@ -657,7 +657,7 @@ func sameKeyLookup(fn *ssa.Function, mu *ssa.MapUpdate) bool {
 	for _, b := range fn.Blocks {
 		for _, in := range b.Instrs {
 			lk, ok := in.(*ssa.Lookup)
-			if !ok || !lk.CommaOk || !lk.Block().Dominates(mu.Block()) {
+			if !ok || !lk.CommaOk || !cfgx.MustPass(lk.Block(), mu.Block()) {
 				continue
 			}
 			if sameAccessValue(lk.Index, mu.Key) && sameAccessValue(lk.X, mu.Map) {
